@@ -202,14 +202,14 @@ def classify_atoms(sx: SymX, f: Formula, path: Term | None, name_atoms: frozense
                 l = loc(o)
                 if l[0] == "attr" and l[2] == "suffix" and same(l[1]):
                     role = "PY"
-        elif t[0] == "cmp" and t[1] == "in" and unbox(t[3])[0] in ("tuple", "list", "set") and unbox(t[3])[1] == (("const", PY),):
+        elif t[0] == "cmp" and t[1] == "in" and unbox(t[3])[0] in ("tuple", "list", "set") and all(x[0] == "const" for x in unbox(t[3])[1]):
             l = loc(t[2])
             if l[0] == "attr" and l[2] == "suffix" and same(l[1]):
-                role = "PY"
-        elif t[0] == "mcall" and t[2] == "endswith" and len(t[3]) == 1 and t[3][0] == ("const", PY):
+                role = "PY" if unbox(t[3])[1] == (("const", PY),) else "SUFFIX"  # a set of suffixes wider than {'.py'}
+        elif t[0] == "mcall" and t[2] == "endswith" and len(t[3]) == 1 and t[3][0][0] == "const":
             l = loc(t[1])
             if same(l) or (l[0] == "attr" and l[2] == "name" and same(l[1])):
-                role = "PY"
+                role = "PY" if t[3][0] == ("const", PY) else "SUFFIX"
         elif t[0] == "unk" and t[1].startswith("bool(<"):
             role = "WORK"  # truthiness of a mutable container (work list not empty)
         roles[key] = role
@@ -217,6 +217,8 @@ def classify_atoms(sx: SymX, f: Formula, path: Term | None, name_atoms: frozense
     # tests about the path that this rule cannot interpret (fnmatch, suffix sets, is_file, ...)
     for key, r in list(roles.items()):
         t = sx.atoms.get(key)
+        if r == "SUFFIX":
+            continue  # understood: a file-type test that is not `suffix == '.py'`
         if r == "other" and key in name_atoms:
             roles[key] = "NAME"  # a case distinction of the name computation itself (e.g. 'the path is the root')
         elif r == "other" and t is not None and target is not None and any(strip_abs(loc(x)) == target for x in subterms(t)):
@@ -331,6 +333,15 @@ def run_registration(repo: Repo, res: Result, rule: str) -> int:
         else:
             detail = f"a directory is descended into although the exclusion test on `{show_loc(loc(subj))}` did not reject it first (guard: {show_formula(_readable(f))}): the children of an excluded directory are still scanned"
         res.add(rule, key + " [directory descended]", ok, detail, where(e.fi, e.node), kind="dominance")
+    # every entry of a visited directory is handed on (to the work list / the recursive call / the consumer of the walk)
+    for e in info.descents:
+        verdict, detail = _children_handed_on(info, e)
+        key = repo.key(e.fi, stmt_of(e.node))
+        n += 1
+        if verdict is None:
+            res.undecide(rule, key + " [all entries visited]", detail, where(e.fi, e.node))
+        else:
+            res.add(rule, key + " [all entries visited]", verdict, detail, where(e.fi, e.node), kind="flow")
     # reading and parsing files
     for e in info.reads:
         key = repo.key(e.fi, stmt_of(e.node))
@@ -395,6 +406,58 @@ def _is_plumbing_test(sx: SymX, key: str) -> bool:
 
 def is_none(t: Term) -> bool:
     return t[0] == "const" and t[1] is None
+
+
+def _unwrap_iterable(t: Term) -> Term:
+    """The iterable behind list() / tuple() / sorted() / reversed() / iter() wrappers and behind a list built from it."""
+    while True:
+        if t[0] == "call" and t[1] in (("builtin", "list"), ("builtin", "tuple"), ("builtin", "sorted"), ("builtin", "reversed"), ("builtin", "iter")) and len(t[2]) >= 1:
+            t = t[2][0]
+        elif t[0] == "box" and t[3][0] == "call" and t[3][1] in (("builtin", "list"), ("builtin", "set")) and len(t[3][2]) == 1:
+            t = t[3][2][0]
+        else:
+            return t
+
+
+def _children_handed_on(info: ScanInfo, d: Event):
+    """(True / False / None, detail): are all entries enumerated by the descent event `d` passed on unfiltered?"""
+    entries = d.result
+    if entries is None:
+        return None, "the enumeration of the directory has no result"
+    good: list[str] = []
+    bad: list[str] = []
+    for e in info.trace.events:
+        if e is d or e.kind not in ("mut", "call") or (e.kind == "call" and e.func[0] != "fn"):
+            continue
+        operands = []
+        for a in [*e.args, *[v for _k, v in e.kwargs]]:
+            # a value chosen among several (e.g. `[]` for an excluded directory, else its entries): each alternative counts
+            operands += [v for _g, v in a[1]] if a[0] == "phi" else [a]
+        for a in operands:
+            src = _unwrap_iterable(a)
+            if src == entries:
+                good.append("all entries")
+            elif src[0] == "comp" and len(src[3]) == 1 and _unwrap_iterable(src[3][0][1]) == entries:
+                tgt, _it, conds = src[3][0]
+                if not [c for c in conds if c != TRUE] and src[2] == tgt:
+                    good.append("all entries")
+                else:
+                    bad.append(f"only the entries with `{' and '.join(show_formula(c) for c in conds if c != TRUE) or show(src[2], 60)}` are handed on")
+            elif a[0] == "elem" and _unwrap_iterable(a[1]) == entries:
+                extra = [c for c in e.pc if c not in d.pc]
+                loops = [l for l in e.loops if l not in d.loops]
+                early = [l for l in loops if l.early_exit and not l.exits_only_when_exhausted()]
+                if early:
+                    bad.append(f"the loop `{_loop_text(early[0])}` over the entries can be left early")
+                elif extra:
+                    bad.append(f"an entry is only handed on if `{show_formula(f_and(extra))[:140]}`")
+                else:
+                    good.append("each entry")
+    if good:
+        return True, "every entry of a visited directory is handed on"
+    if bad:
+        return False, f"not every entry of a visited directory is visited: {bad[0]}"
+    return None, "cannot see where the entries of a directory are handed on"
 
 
 def _file_of(e: Event) -> Term | None:
